@@ -136,41 +136,111 @@ def rule_strlit(ctx, rep):
               f"requirement constants {bad} contain quote characters but setup_py_writer wraps them in a fixed \"", count=n)
 
 
+def _local_values(fn, name: str) -> list[ast.expr]:
+    out = []
+    for a in walk_no_nested(fn.node):
+        if isinstance(a, (ast.Assign, ast.AnnAssign)) and a.value is not None:
+            for tg in (a.targets if isinstance(a, ast.Assign) else [a.target]):
+                if isinstance(tg, ast.Name) and tg.id == name:
+                    out.append(a.value)
+    return out
+
+
+def _derives_filtered_names(fn, e: ast.expr, depth: int = 4) -> bool:
+    """Is `e` (part of) a filtered sub-list of some node's `.names`?"""
+    if isinstance(e, (ast.ListComp, ast.GeneratorExp)):
+        g = e.generators[0]
+        return bool(g.ifs) and last_attr(g.iter) == "names" and len(e.generators) == 1
+    if isinstance(e, ast.Call) and isinstance(e.func, ast.Name) and e.func.id in ("list", "tuple") and len(e.args) == 1:
+        return _derives_filtered_names(fn, e.args[0], depth)
+    if isinstance(e, ast.Call) and isinstance(e.func, ast.Name) and e.func.id == "filter" and len(e.args) == 2:
+        return last_attr(e.args[1]) == "names"
+    if isinstance(e, (ast.List, ast.Tuple)):
+        return any(_derives_filtered_names(fn, x.value if isinstance(x, ast.Starred) else x, depth) for x in e.elts if isinstance(x, (ast.Starred, ast.Name)))
+    if isinstance(e, ast.Subscript) and isinstance(e.slice, ast.Slice):
+        return _derives_filtered_names(fn, e.value, depth)
+    if isinstance(e, ast.BinOp) and isinstance(e.op, ast.Add):
+        return _derives_filtered_names(fn, e.left, depth) or _derives_filtered_names(fn, e.right, depth)
+    if isinstance(e, ast.Name) and depth:
+        return any(_derives_filtered_names(fn, v, depth - 1) for v in _local_values(fn, e.id))
+    return False
+
+
+def _is_comma_reset(fn, v: ast.expr, depth: int = 3) -> bool:
+    if isinstance(v, ast.Call) and last_attr(v.func) == "with_changes":
+        return any(k.arg == "comma" and unparse(k.value).endswith("MaybeSentinel.DEFAULT") for k in v.keywords)
+    if isinstance(v, ast.Name) and depth:
+        vals = _local_values(fn, v.id)
+        return bool(vals) and all(_is_comma_reset(fn, x, depth - 1) for x in vals)
+    return False
+
+
+def _guards_of(fn, node: ast.AST) -> set[tuple[bool, str]]:
+    """(polarity, test) of every if-statement / conditional expression that encloses `node` inside fn."""
+    pm = {}
+    for p in ast.walk(fn.node):
+        for c in ast.iter_child_nodes(p):
+            pm[id(c)] = p
+    out = set()
+    cur = node
+    while id(cur) in pm:
+        par = pm[id(cur)]
+        if isinstance(par, ast.If):
+            if any(cur is x for x in par.body):
+                out.add((True, unparse(par.test)))
+            elif any(cur is x for x in par.orelse):
+                out.add((False, unparse(par.test)))
+        elif isinstance(par, ast.IfExp):
+            if cur is par.body:
+                out.add((True, unparse(par.test)))
+            elif cur is par.orelse:
+                out.add((False, unparse(par.test)))
+        cur = par
+    return out
+
+
+def _last_element_reset(ctx, fn, e: ast.expr, use: ast.AST, depth: int = 4) -> bool:
+    """Is the last element of the list `e`, as it is when `use` is evaluated, a `<alias>.with_changes(comma=MaybeSentinel.DEFAULT)`?"""
+    if isinstance(e, (ast.List, ast.Tuple)) and e.elts:
+        last = e.elts[-1]
+        if isinstance(last, ast.Starred):
+            return _last_element_reset(ctx, fn, last.value, use, depth)
+        return _is_comma_reset(fn, last)
+    if isinstance(e, ast.BinOp) and isinstance(e.op, ast.Add):
+        return _last_element_reset(ctx, fn, e.right, use, depth)
+    if isinstance(e, ast.Name) and depth:
+        held = _guards_of(fn, use) | {(pol, txt) for pol, txt in ctx.flow(fn).must_at(use)}
+        for a in walk_no_nested(fn.node):
+            if isinstance(a, ast.Assign) and isinstance(a.targets[0], ast.Subscript) and isinstance(a.targets[0].value, ast.Name) and a.targets[0].value.id == e.id \
+                    and unparse(a.targets[0].slice) == "-1" and a.lineno < use.lineno and _is_comma_reset(fn, a.value):
+                # the store happens whenever the use happens (a guard on the list being non-empty costs nothing: an empty list has no last element)
+                need = _guards_of(fn, a) - {(True, e.id), (True, f"len({e.id})"), (True, f"len({e.id}) > 0")}
+                if need <= held:
+                    return True
+        vals = _local_values(fn, e.id)
+        return len(vals) == 1 and _last_element_reset(ctx, fn, vals[0], use, depth - 1)
+    return False
+
+
 def rule_comma_tail(ctx, rep):
     rep.rule(
         "R-COMMA-TAIL",
-        "a hook that returns Import/ImportFrom.with_changes(names=<filtered sub-list of the original aliases>) resets the comma of the "
-        "last kept alias (MaybeSentinel.DEFAULT); otherwise `from m import a, b` with b removed is emitted as `from m import a, `",
+        "a hook that returns Import/ImportFrom.with_changes(names=<list derived from a filtered sub-list of a node's aliases>) makes the "
+        "last kept alias one whose comma was reset (`.with_changes(comma=MaybeSentinel.DEFAULT)`, stored at [-1] before the use or placed "
+        "last in the list literal); otherwise `from m import a, b` with b removed is emitted as `from m import a, `",
         min_instances=2,
     )
     n = 0
     for fn in ctx.prog.live_functions():
-        if fn.cls is None or not ("import" in fn.name.lower()):
+        if fn.cls is None:
             continue
-        r = ctx.resolver(fn)
         for c in walk_no_nested(fn.node):
             if isinstance(c, ast.Call) and last_attr(c.func) == "with_changes":
                 nm = next((k.value for k in c.keywords if k.arg == "names"), None)
-                if nm is None:
-                    continue
-                src = r.expand(nm)
-                if isinstance(nm, ast.Name):
-                    # first assignment of the local
-                    for a in walk_no_nested(fn.node):
-                        if isinstance(a, (ast.Assign, ast.AnnAssign)):
-                            tg = a.targets[0] if isinstance(a, ast.Assign) else a.target
-                            if isinstance(tg, ast.Name) and tg.id == nm.id and a.value is not None:
-                                src = a.value
-                                break
-                filtered = isinstance(src, ast.ListComp) and bool(src.generators[0].ifs) and "names" in unparse(src.generators[0].iter)
-                if not filtered:
+                if nm is None or not _derives_filtered_names(fn, nm):
                     continue
                 n += 1
-                name = nm.id if isinstance(nm, ast.Name) else None
-                reset = False
-                for a in walk_no_nested(fn.node):
-                    if isinstance(a, ast.Assign) and isinstance(a.targets[0], ast.Subscript) and name and unparse(a.targets[0].value) == name and unparse(a.targets[0].slice) == "-1" and "comma" in unparse(a.value) and a.lineno < c.lineno:
-                        reset = True
+                reset = _last_element_reset(ctx, fn, nm, c)
                 rep.check("R-COMMA-TAIL", fn.qname, fn.loc(c), reset, "filtered-names",
                           f"`{unparse(c)[:60]}` keeps a filtered alias list without resetting the last alias' comma: "
                           "`from __future__ import annotations, print_function` becomes `from __future__ import annotations, ` (SyntaxError)")
